@@ -242,6 +242,18 @@ class Analyzer3:
                 c = const_val(a['r'])
                 if c is not None:
                     self.advance(st, key, c if op == '+=' else -c, a, record)
+                elif op == '+=' and strip_casts(a['r']).get('k') == 'call' and \
+                        callee_name(strip_casts(a['r'])) in ('strcspn', 'strspn', 'strlen') and strip_casts(a['r'])['args'] and \
+                        self.norm(strip_casts(a['r'])['args'][0]) == (key, 0):
+                    # the span functions count bytes of the string itself before its terminator: the cursor lands inside it
+                    nz = st.nz.get(key, NEG)
+                    if record and key in self.tracked:
+                        self.site('BND3', a, 'advance of %s by %s of itself stays inside the string' % (key, callee_name(strip_casts(a['r']))),
+                                  nz >= 0, 'the span ends at or before the terminator' if nz >= 0 else
+                                  'cursor not known to be inside the string', 'adv:%s:span' % key)
+                    for k in [k for k in st.rel if k[0] == key]:
+                        del st.rel[k]
+                    st.nz[key] = 0 if nz >= 0 else NEG
                 else:
                     if record and key in self.tracked:
                         self.site('BND3', a, 'advance of %s by a computed amount' % key, False,
